@@ -13,9 +13,10 @@ from gen import c01_cmp as CMP
 ID = "C01"
 PROPS = ["IsoVerif/Props/C01.lean", "IsoVerif/Props/C01Path.lean", "IsoVerif/Props/C01Far.lean",
          "IsoVerif/Props/C01Compare.lean", "IsoVerif/Props/C01Converse.lean", "IsoVerif/Props/C01Polya.lean",
-         "IsoVerif/Props/C01Follow.lean"]
+         "IsoVerif/Props/C01Follow.lean", "IsoVerif/Props/C01FakeTerminal.lean"]
 TARGETS = ["IsoVerif.Props.C01", "IsoVerif.Props.C01Path", "IsoVerif.Props.C01Far", "IsoVerif.Props.C01Compare",
-           "IsoVerif.Props.C01Converse", "IsoVerif.Props.C01Polya", "IsoVerif.Props.C01Follow"]
+           "IsoVerif.Props.C01Converse", "IsoVerif.Props.C01Polya", "IsoVerif.Props.C01Follow",
+           "IsoVerif.Props.C01FakeTerminal"]
 GEN_DEPS = ["Prims", "Enums", "EventClasses", "Strategies", "ComparatorTables"]
 LEVEL = "proof"
 RULE = ("seeded random annotations (1-3 overlapping / nested / antisense genes, 1-6 isoforms each: exon skipping, alt 5'/3' "
@@ -23,7 +24,9 @@ RULE = ("seeded random annotations (1-3 overlapping / nested / antisense genes, 
         "and at a tiny scale (all lengths / parameters shrunk so that micro-features and every boundary are hit) x the four "
         "matching presets (+ delta / resolve_ambiguous overrides and shrunk parameter sets) x reads derived from an isoform "
         "(5'/3' truncation, per-site jitter <= delta, ends inside or slightly beyond terminal exons), far-off reads (skipped / "
-        "novel exon, retained intron, shifted site, extended end, novel intron), arbitrary block lists, with and without "
+        "novel exon, retained intron, shifted site, extended end, novel intron), reads with short (around "
+        "max_fake_terminal_exon_len) extra outermost exons in front of a tolerated / minor / major overhang of the next exon "
+        "(audit C01-G1; also a stand-alone stage on categorize_exon_elongation_subtype), arbitrary block lists, with and without "
         "polyA/T positions; a case is non-trivial when the model returns a non-error assignment with at least one isoform "
         "and model == implementation; distinct by (annotation, parameters, blocks, polyA)")
 TRUSTED = ["Gen/EventClasses.lean, Gen/Enums.lean, Gen/Strategies.lean, Gen/ComparatorTables.lean are extracted from "
@@ -41,6 +44,15 @@ TRUSTED = ["Gen/EventClasses.lean, Gen/Enums.lean, Gen/Strategies.lean, Gen/Comp
            "Props/C01Follow.lean; tied to the Lean form only through the theorem itself: a model answer outside the consistent / "
            "fallback path for a read the Python predicate accepts is reported as op follow_hyp_model)"]
 ASSUMPTIONS = ["CPython int semantics = Lean Int",
+               "the model describes the code WITH fix_fake_terminal_elongation.patch (audit C01-G1): on a tree without it the "
+               "check reports the defect (replay far_read_consistent) and the correspondence disagreements carry "
+               "matches_orig = true (Model/Assign.lean elongationEventsOrig)",
+               "hypothesis PolyAOutside (consistent_path_sound, unique_when_only) is monitored, not proved: real "
+               "AlignmentInfo + PolyAFinder + PolyAFixer on every record of the oracle's pipeline BAMs and on a search over "
+               "records with terminal aligned blocks of 1..60 bases; it is known to fail behind a terminal block of 1-2 bases "
+               "(class polya_outside_short_terminal_exon, evidence notes)",
+               "score hypothesis of full_length_reported (score(T) >= 2/3 of every candidate's) is monitored by the oracle on "
+               "the reported isoforms (reading rule: T reported unless another candidate's Jaccard score exceeds 3/2 of T's)",
                "isoform ids are zero-padded so that their string order is the list order (the model uses list positions)",
                "nucleotide scores / penalty scores are exact rationals in the model; a case whose float decision in the "
                "real code differs from the exact decision is detected by Fraction recomputation, counted as "
@@ -329,11 +341,17 @@ def gen_reads(ctx, isoforms, params, scale, n):
             # forward clause (Props/C01Follow.lean): exact sub-chains whose ends sit at exon borders / at the thresholds
             kind = "follow_border"
             b = A.follow_border_read(rng, t["exons"], params.minimal_exon_overlap)
-        elif r < 0.85:
+        elif r < 0.78:
             kind = "far"
             b = A.far_read(rng, t["exons"], scale)
             if b is not None and rng.random() < 0.5:
                 b = A.follow_read(rng, b, params.delta) or b
+        elif r < 0.85:
+            # audit C01-G1: short outermost exon(s) + tolerated / minor / major overhang of the next exon
+            kind = "fake_outer"
+            b = A.follow_read(rng, t["exons"], params.delta) if rng.random() < 0.7 else A.far_read(rng, t["exons"], scale)
+            if b is not None:
+                b = A.fake_outer_read(rng, b, params.max_fake_terminal_exon_len, scale)
         else:
             kind = "random"
             b = A.random_blocks(rng, lo, hi)
@@ -573,6 +591,7 @@ def correspondence(ctx):
     ccases = classify_cases(ctx, 300 if quick else 3000)
     ctx.diff_batch("C01", ccases, lambda op, kw: impl_classify(kw))
     correspondence_polya_sentinel(ctx)
+    correspondence_fake_terminal(ctx)
     # 1b. JunctionComparator.compare_junctions on its own: test corpus first, small universes, random and malformed chains
     correspondence_compare(ctx)
     # 2. gene model, read profiles, assignment
@@ -704,6 +723,79 @@ def correspondence_polya_sentinel(ctx):
             for e in mo:
                 ctx.count("polya_event:" + e[0])
             ctx.mark_nontrivial(["verify_read_ends", kw["isoforms"], kw["blocks"], kw["polya"]])
+
+
+FAKE_TERMINAL_WITNESSES = [
+    # (isoforms, blocks): the inputs of Props/C01FakeTerminal.lean `elongationEventsOrig_witness` and of the fix: commit message
+    ([[(5000, 5400), (6000, 6400), (7000, 7400)]], [(4000, 4020), (4500, 5400), (6000, 6400), (7000, 7400)]),
+    ([[(5000, 5400), (6000, 6400), (7000, 7400)]], [(4500, 5400), (6000, 6400), (7000, 7400)]),
+    ([[(5000, 5400), (6000, 6400), (7000, 7400)]], [(5000, 5400), (6000, 6400), (7000, 7900), (8400, 8420)]),
+    ([[(5000, 5400), (6000, 6400), (7000, 7400)]], [(4000, 4015), (4500, 5400), (6000, 6400), (7000, 7400), (8400, 8420)]),
+    ([[(5000, 5400), (6000, 6400), (7000, 7400)]], [(4000, 4020), (5000, 5400), (6000, 6400), (7000, 7400)]),
+    ([[(5000, 6400)]], [(4000, 4015), (4500, 6400)]),
+    ([[(4000, 4020), (4500, 4700), (5000, 5400), (6000, 6400), (7000, 7400)], [(5000, 5400), (6000, 6400), (7000, 7400)]],
+     [(4000, 4020), (4500, 5400), (6000, 6400), (7000, 7400)]),
+]
+
+
+def correspondence_fake_terminal(ctx):
+    """LongReadAssigner.categorize_exon_elongation_subtype on its own (driver op C01.elongation) for reads with short
+    outermost exons: the code path of the repair of audit finding C01-G1 (the overhang is measured on the next exon when
+    the outermost one is at most max_fake_terminal_exon_len long and lies outside the first / last common exon).  The
+    witnesses of Props/C01FakeTerminal.lean run first.  A disagreement is also compared with the model of the code BEFORE
+    the repair (op C01.elongation_orig): `matches_orig` says that the tree under test still has the old behaviour."""
+    rng = ctx.rng
+    n = 500 if ctx.tier == "quick" else 10000
+    cases = []
+    for isos, blocks in FAKE_TERMINAL_WITNESSES:
+        isoforms = [{"id": "t%04d" % i, "gene": "g0", "strand": "+", "exons": ex} for i, ex in enumerate(isos)]
+        for s in A.PRESETS:
+            cases.append((make_params(s), isoforms, blocks, [-1, -1, -1, -1], "witness"))
+    for _ in range(n):
+        tiny = rng.random() < 0.4
+        scale = 0.04 if tiny else 1.0
+        isoforms = A.rand_annotation(rng, scale=scale, max_genes=2)
+        params = tiny_params(rng) if tiny else make_params(rng.choice(A.PRESETS))
+        t = rng.choice(isoforms)
+        b = A.follow_read(rng, t["exons"], params.delta) if rng.random() < 0.7 else A.far_read(rng, t["exons"], scale)
+        if b is None:
+            continue
+        b = A.fake_outer_read(rng, b, params.max_fake_terminal_exon_len, scale)
+        if b is None:
+            continue
+        cases.append((params, isoforms, b, [-1, -1, -1, -1], "tiny" if tiny else "genome"))
+    recs = []
+    for params, isoforms, blocks, polya, kind in cases:
+        try:
+            built = Built(isoforms, params)
+            prof = built.profiles(blocks, polya)
+        except ERRS:
+            continue
+        for i, tid in enumerate(built.ids):
+            try:
+                io = [event_json(e) for e in
+                      built.assigner.categorize_exon_elongation_subtype(prof.read_split_exon_profile, tid)]
+            except ERRS as ex:
+                io = {"error": "error", "exc": type(ex).__name__}
+            kw = {"isoforms": isoforms_json(isoforms), "params": params_json(params), "blocks": [list(b) for b in blocks],
+                  "polya": polya, "iso": i}
+            recs.append((kw, io, kind))
+    outs = ctx.driver.run([vlib.req("C01.elongation", **kw) for kw, _, _ in recs])
+    for (kw, io, kind), mo in zip(recs, outs):
+        ctx.evaluations += 1
+        ctx.traces_validated += 1
+        ctx.count("op:elongation_fake_terminal_" + kind)
+        if isinstance(mo, dict) and "driver_error" in mo or not vlib.same(mo, vlib.canon(io)):
+            if sum(1 for d in ctx.disagreements if d.get("op") == "elongation") < 12:
+                orig = ctx.driver.run([vlib.req("C01.elongation_orig", **kw)])[0]
+                ctx.disagree("elongation", kw, mo, {"impl": io, "matches_orig": vlib.same(orig, vlib.canon(io))})
+            else:
+                ctx.count("elongation:disagreements_not_recorded")
+        elif not vlib.is_err(mo):
+            for e in mo:
+                ctx.count("elong_event:" + e[0])
+            if mo:
+                ctx.mark_nontrivial(["elongation", kw["isoforms"], kw["blocks"], kw["iso"], kw["params"]])
 
 
 def correspondence_compare_helpers(ctx, tiny, presets):
@@ -875,6 +967,8 @@ MIN_ANNOT_EXON = 110   # annotated exons of the oracle's domain are longer than 
 MAX_FAKE_EXON = 40     # max_fake_terminal_exon_len over all presets
 FAR_EXON = 60          # blocks of a "far" read are longer than max_fake_terminal_exon_len (max 40): no micro terminal exons
 CONSISTENT = ("unique", "unique_minor_difference", "ambiguous")
+WIDE_MIN_EXON = 20     # audit G6: annotations without micro-features (exons >= 20 bp, introns >= 30 bp) are inside the domain
+WIDE_MIN_INTRON = 30   # of the forward clause; the converse clause is judged on every annotation (G4, G5)
 
 
 def o_introns(blocks):
@@ -973,9 +1067,25 @@ def jaccard(blocks, exons):
     return Fraction(len(a & b), len(a | b))
 
 
-def check_assignment(isoforms, delta, blocks, tail, result):
+MONITOR = {}            # counters of the hypothesis monitors (copied into ctx.count by the oracle stages)
+
+
+def monitor_count(key):
+    MONITOR[key] = MONITOR.get(key, 0) + 1
+
+
+def skips_short_annotated_exon(isoforms, blocks):
+    """tolerance (c) as the CODE applies it: an annotated exon of at most max_missed_exon_len (100, over all presets) that
+    lies inside a read intron may be an `exon_misalignment` artifact - such a read is not judged as far (audit G4: the test
+    is per READ; short exons elsewhere in the annotation are allowed)"""
+    R = o_introns(blocks)
+    return any(r[0] <= e[0] and e[1] <= r[1] and e[1] - e[0] + 1 <= 100 for r in R for t in isoforms for e in t["exons"])
+
+
+def check_assignment(isoforms, delta, blocks, tail, result, judge_follow=True):
     """the property on one read.  result = {"type": str, "isoforms": [ids]}.  `tail` = None or ("A"|"T", position of the
-    read end carrying a polyA / polyT tail).  Returns list of (kind, detail)."""
+    read end carrying a polyA / polyT tail).  Returns list of (kind, detail).  judge_follow=False: only the converse
+    clause is evaluated (annotations with micro-features, where the forward clause's reading rules do not apply)."""
     fails = []
     by_id = {t["id"]: t for t in isoforms}
     all_introns = sorted({k for t in isoforms for k in o_introns(t["exons"])})
@@ -991,6 +1101,8 @@ def check_assignment(isoforms, delta, blocks, tail, result):
             followed[t["id"]] = f
     rep = [i for i in result["isoforms"] if i in by_id]
     typ = result["type"]
+    if followed and not judge_follow:
+        return fails
     if followed:
         if typ not in CONSISTENT:
             fails.append(("follows_not_consistent", "read follows %s but is reported %s %s" % (sorted(followed), typ, rep)))
@@ -1000,9 +1112,20 @@ def check_assignment(isoforms, delta, blocks, tail, result):
                 if why:
                     fails.append(("reported_incompatible", "reported isoform %s: %s" % (i, why)))
             for tid, f in followed.items():
-                if f["full_length"] and 3 * jaccard(blocks, by_id[tid]["exons"]) >= 2 and tid not in rep:
-                    # T may only be dropped in favour of isoforms that the read follows as well (nucleotide-score resolution)
-                    fails.append(("full_length_not_reported", "full-length read of %s reported as %s %s" % (tid, typ, rep)))
+                if f["full_length"] and tid not in rep:
+                    # audit G3: the score hypothesis of `full_length_reported` (hbest / hmin) is MONITORED, not copied:
+                    # reading rule "full-length => T reported unless another candidate's Jaccard score exceeds 3/2 of T's"
+                    # (resolve_by_nucleotide_score keeps every candidate with score * 3/2 >= best; the best candidate is
+                    # always reported, so the rule is decided on the reported isoforms)
+                    jt = jaccard(blocks, by_id[tid]["exons"])
+                    best = max([jaccard(blocks, by_id[i]["exons"]) for i in rep] or [Fraction(0)])
+                    if jt * 3 < best * 2:
+                        monitor_count("oracle:full_length_dropped_by_score(reading rule)")
+                    else:
+                        fails.append(("full_length_not_reported", "full-length read of %s (Jaccard %s, best reported %s) "
+                                      "reported as %s %s" % (tid, jt, best, typ, rep)))
+                elif f["full_length"]:
+                    monitor_count("oracle:full_length_reported")
             comp = [t["id"] for t in isoforms if o_compatible(blocks, t["exons"], delta) is None and
                     t["exons"][0][0] - 10 <= blocks[0][0] and blocks[-1][1] <= t["exons"][-1][1] + 10]
             if len(comp) == 1 and (rep != comp or typ not in ("unique", "unique_minor_difference")):
@@ -1011,8 +1134,7 @@ def check_assignment(isoforms, delta, blocks, tail, result):
         # the "fake terminal exon" tolerance can excuse at most the outermost exon (<= max_fake_terminal_exon_len) and its
         # intron: a read whose remaining blocks are far from every isoform is far whatever its outermost exons are
         core = far_core(blocks, tail)
-        if min(b[1] - b[0] + 1 for b in core) >= FAR_EXON and \
-                min(e[1] - e[0] + 1 for t in isoforms for e in t["exons"]) >= MIN_ANNOT_EXON and \
+        if min(b[1] - b[0] + 1 for b in core) >= FAR_EXON and not skips_short_annotated_exon(isoforms, blocks) and \
                 all(o_far_from(core, t["exons"], t["strand"], tail) for t in isoforms):
             if typ in CONSISTENT:
                 fails.append(("far_read_consistent", "read is far from every isoform but reported %s %s" % (typ, rep)))
@@ -1025,9 +1147,9 @@ def far_core(blocks, tail):
     core = list(blocks)
     if tail is not None:
         return core
-    if len(core) >= 3 and core[0][1] - core[0][0] + 1 <= MAX_FAKE_EXON:
+    if len(core) >= 2 and core[0][1] - core[0][0] + 1 <= MAX_FAKE_EXON:
         core = core[1:]
-    if len(core) >= 3 and core[-1][1] - core[-1][0] + 1 <= MAX_FAKE_EXON:
+    if len(core) >= 2 and core[-1][1] - core[-1][0] + 1 <= MAX_FAKE_EXON:
         core = core[:-1]
     return core
 
@@ -1135,8 +1257,25 @@ def oracle_far_read(rng, t):
     ex = [list(e) for e in t["exons"]]
     n = len(ex)
     kind = rng.choice(["skip", "novel_exon", "retain", "shift5", "shift3", "extend_l", "extend_r", "apa",
-                       "flank_l", "flank_r"])
-    if kind in ("flank_l", "flank_r"):
+                       "flank_l", "flank_r", "fake_ext_l", "fake_ext_r"])
+    if kind in ("fake_ext_l", "fake_ext_r"):
+        # audit G1: ONE short (1..40 bp) extra outermost exon - inside some presets' fake-terminal-exon tolerance, which may
+        # excuse that exon and its intron only - in front of an outermost exon of T that is itself extended far (>= FAR_LEN)
+        # beyond T's annotated end.  The overhang of the NEXT exon is far beyond every elongation tolerance.
+        ln = rng.randint(1, 20) if rng.random() < 0.5 else rng.randint(1, MAX_FAKE_EXON)
+        ext = rng.randint(FAR_LEN, 3 * FAR_LEN)
+        gap = rng.randint(80, 900)
+        if n > 2 and rng.random() < 0.3:
+            ex = ex[:rng.randint(2, n)] if kind == "fake_ext_l" else ex[rng.randint(0, n - 2):]       # 3'/5' truncated rest
+        if kind == "fake_ext_l":
+            ex[0][0] -= ext
+            e_end = ex[0][0] - gap - 1
+            ex.insert(0, [e_end - ln + 1, e_end])
+        else:
+            ex[-1][1] += ext
+            e_start = ex[-1][1] + gap + 1
+            ex.append([e_start, e_start + ln - 1])
+    elif kind in ("flank_l", "flank_r"):
         # 2-3 extra exons beyond the transcript's low- / high-coordinate end (unannotated upstream / downstream exons): the
         # inner ones long (>= FAR_LEN), the outermost one short (1..40 bp, inside some presets' fake-terminal-exon
         # tolerance, which may excuse that exon only)
@@ -1197,7 +1336,7 @@ def oracle_far_read(rng, t):
         ex[0][0] -= rng.randint(FAR_LEN, 3 * FAR_LEN)
     elif kind == "extend_r":
         ex[-1][1] += rng.randint(FAR_LEN, 3 * FAR_LEN)
-    if kind not in ("apa", "extend_l", "extend_r", "flank_l", "flank_r") and rng.random() < 0.35:
+    if kind not in ("apa", "extend_l", "extend_r", "flank_l", "flank_r", "fake_ext_l", "fake_ext_r") and rng.random() < 0.35:
         # a small (tolerated) end extension on top of the far change: minor and major events then occur together
         if rng.random() < 0.5:
             ex[0][0] -= rng.randint(13, 45)
@@ -1282,6 +1421,333 @@ def oracle_inprocess(ctx, n_worlds, reads_per_iso):
                         ctx.fail(k, {"mode": "inprocess", "isoforms": strip(isoforms), "strategy": strategy,
                                      "blocks": [list(b) for b in blocks], "polya": polya, "reported_events": res["events"]},
                                  detail + " | events %s" % res["events"])
+    return n
+
+
+# ---- audit G4-G6: annotations outside the old generator domain (short exons 3..109 bp, short introns 1..99 bp)
+
+def oracle_annotation_wide(rng):
+    """1-2 genes whose base chain has exons of 3..19 (12 %), 20..109 (38 %), 110..500 bp and introns of 1..12 (12 %),
+    13..99 (18 %), 100..2500 bp, plus the isoform variants of the correspondence generator (skipped exons, alt sites at
+    0..13 / 20..150 bp, retained introns, truncated / extended ends, mono-exon, novel exons)"""
+    def chain(pos, n):
+        ex = []
+        for _ in range(n):
+            r = rng.random()
+            ln = rng.randint(3, 19) if r < 0.12 else rng.randint(20, 109) if r < 0.5 else rng.randint(110, 500)
+            ex.append((pos, pos + ln - 1))
+            r = rng.random()
+            gap = rng.randint(1, 12) if r < 0.12 else rng.randint(13, 99) if r < 0.3 else rng.randint(100, 2500)
+            pos += ln + gap
+        return ex
+    iso = []
+    pos = rng.randint(3000, 4000)
+    for gi in range(rng.randint(1, 2)):
+        strand = rng.choice("+-")
+        base = chain(pos, rng.randint(2, 7))
+        seen = set()
+        for ex in [base] + A.variants(rng, base, 1.0):
+            if tuple(ex) in seen or not A.valid_blocks(ex):
+                continue
+            seen.add(tuple(ex))
+            iso.append({"gene": "g%d" % gi, "strand": strand, "exons": [tuple(e) for e in ex]})
+        if rng.random() < 0.4:
+            pos = base[0][0] + rng.randint(0, base[-1][1] - base[0][0])
+        else:
+            pos = base[-1][1] + rng.randint(100, 900)
+    rng.shuffle(iso)
+    for i, t in enumerate(iso):
+        t["id"] = "t%04d" % i
+    return iso
+
+
+def oracle_far_read_wide(rng, t):
+    """ONE change far beyond every tolerance that does not touch a short feature (skipped exon >= 200 bp, novel 200-bp exon
+    >= 250 bp from both neighbours, retained intron >= 200 bp, site moved by 100..200 bp with >= 60 bp of exon / 100 bp of
+    intron left, end extended by 200..600 bp), optionally behind a short (1..40 bp) extra outermost exon (audit G1)"""
+    ex = [list(e) for e in t["exons"]]
+    n = len(ex)
+    kind = rng.choice(["skip", "novel_exon", "retain", "shift5", "shift3", "extend_l", "extend_r", "fake_ext_l", "fake_ext_r"])
+    L = lambda e: e[1] - e[0] + 1
+    if kind == "skip":
+        c = [i for i in range(1, n - 1) if L(ex[i]) >= FAR_LEN]
+        if not c:
+            return None, kind
+        i = rng.choice(c)
+        ex = ex[:i] + ex[i + 1:]
+    elif kind == "novel_exon":
+        c = [i for i in range(n - 1) if ex[i + 1][0] - ex[i][1] - 1 >= 750]
+        if not c:
+            return None, kind
+        i = rng.choice(c)
+        a, b = ex[i][1] + 1, ex[i + 1][0] - 1
+        s0 = rng.randint(a + 250, b - 450)
+        ex = ex[:i + 1] + [[s0, s0 + 199]] + ex[i + 1:]
+    elif kind == "retain":
+        c = [i for i in range(n - 1) if ex[i + 1][0] - ex[i][1] - 1 >= FAR_LEN]
+        if not c:
+            return None, kind
+        i = rng.choice(c)
+        ex = ex[:i] + [[ex[i][0], ex[i + 1][1]]] + ex[i + 2:]
+    elif kind in ("shift5", "shift3"):
+        if n < 2:
+            return None, kind
+        d = rng.randint(FAR_SITE, 2 * FAR_SITE)
+        if kind == "shift5":
+            i = rng.randint(0, n - 2)
+            if L(ex[i]) - d >= FAR_EXON and rng.random() < 0.5:
+                ex[i][1] -= d
+            elif ex[i + 1][0] - ex[i][1] - 1 - d >= 100:
+                ex[i][1] += d
+            else:
+                return None, kind
+        else:
+            i = rng.randint(1, n - 1)
+            if L(ex[i]) - d >= FAR_EXON and rng.random() < 0.5:
+                ex[i][0] += d
+            elif ex[i][0] - ex[i - 1][1] - 1 - d >= 100:
+                ex[i][0] -= d
+            else:
+                return None, kind
+    elif kind == "extend_l":
+        ex[0][0] -= rng.randint(FAR_LEN, 3 * FAR_LEN)
+    elif kind == "extend_r":
+        ex[-1][1] += rng.randint(FAR_LEN, 3 * FAR_LEN)
+    elif kind in ("fake_ext_l", "fake_ext_r"):
+        ln = rng.randint(1, MAX_FAKE_EXON)
+        ext = rng.randint(FAR_LEN, 3 * FAR_LEN)
+        gap = rng.randint(80, 900)
+        if kind == "fake_ext_l":
+            ex[0][0] -= ext
+            e_end = ex[0][0] - gap - 1
+            ex.insert(0, [e_end - ln + 1, e_end])
+        else:
+            ex[-1][1] += ext
+            e_start = ex[-1][1] + gap + 1
+            ex.append([e_start, e_start + ln - 1])
+    b = [tuple(e) for e in ex]
+    return (b if A.valid_blocks(b) and b[0][0] >= 1 else None), kind
+
+
+def oracle_inprocess_wide(ctx, n_worlds, reads_per_iso):
+    """audit G4-G6: the property on annotations OUTSIDE the old oracle domain.  Converse clause: every world (short exons and
+    micro-introns anywhere; the far change never touches a short feature; reads that skip a short annotated exon are not
+    judged - tolerance (c) per read).  Forward clause: worlds without micro-features (exons >= 20 bp, introns >= 30 bp)."""
+    rng = ctx.rng
+    n = 0
+    for _ in range(n_worlds):
+        isoforms = oracle_annotation_wide(rng)
+        micro = min(e[1] - e[0] + 1 for t in isoforms for e in t["exons"]) < WIDE_MIN_EXON or \
+            any(t["exons"][i + 1][0] - t["exons"][i][1] - 1 < WIDE_MIN_INTRON for t in isoforms for i in range(len(t["exons"]) - 1))
+        ctx.count("oracle_wide:world_" + ("micro" if micro else "no_micro"))
+        for strategy in A.PRESETS:
+            params = make_params(strategy)
+            built = Built(isoforms, params)
+            for t in isoforms:
+                for _ in range(reads_per_iso):
+                    if rng.random() < 0.5:
+                        blocks, kind = oracle_far_read_wide(rng, t)
+                    elif not micro:
+                        blocks, kind = A.follow_read(rng, t["exons"], params.delta), "follow"
+                    else:
+                        continue
+                    if blocks is None:
+                        continue
+                    polya = [-1, -1, -1, -1]
+                    try:
+                        res = inprocess_result(built, blocks, polya)
+                    except ERRS as ex:
+                        ctx.fail("assigner_raises", {"mode": "inprocess", "isoforms": strip(isoforms), "strategy": strategy,
+                                                     "blocks": blocks, "polya": polya}, type(ex).__name__)
+                        continue
+                    n += 1
+                    ctx.count("oracle_wide:" + kind)
+                    for k, detail in check_assignment(isoforms, params.delta, blocks, None, res, judge_follow=not micro):
+                        ctx.fail(k, {"mode": "inprocess", "isoforms": strip(isoforms), "strategy": strategy, "wide": True,
+                                     "micro": micro, "blocks": [list(b) for b in blocks], "polya": polya,
+                                     "reported_events": res["events"]}, detail + " | events %s" % res["events"])
+    return n
+
+
+# ---- audit G2: hypothesis `PolyAOutside` of consistent_path_sound / unique_when_only MONITORED on the real PolyAFinder
+
+def polya_outside(read_exons, pa):
+    """Props/C01Path.lean `PolyAOutside` on the real objects: the external polyA position is not left of the start of a
+    read intron, the external polyT position not right of the end of one"""
+    R = o_introns(read_exons)
+    a, t = pa.external_polya_pos, pa.external_polyt_pos
+    return (a == -1 or all(r[0] <= a for r in R)) and (t == -1 or all(t <= r[1] for r in R))
+
+
+def real_polya_info(rec, params):
+    """what alignment_processor does per BAM record: AlignmentInfo + PolyAFinder.detect_polya + PolyAFixer (polyA exon
+    trimming, shift_polya / shift_polyt) -> (read_exons, PolyAInfo)"""
+    _impl()
+    from src.alignment_info import AlignmentInfo
+    from src.polya_finder import PolyAFinder
+    from src.polya_verification import PolyAFixer
+    ai = AlignmentInfo(rec)
+    ai.add_polya_info(PolyAFinder(params.polya_window, params.polya_fraction), PolyAFixer(params))
+    return ai.read_exons, ai.polya_info
+
+
+def judge_polya_outside(ctx, where, strategy, name, aligned_exons, rec_desc, read_exons, pa):
+    """the monitored hypothesis on one record.  Class recorded by the audit (finding candidate
+    `polya_outside_short_terminal_exon`): the aligned block next to the tail is 1-2 bases long - find_polya_external
+    starts its window 2 read bases before the mapped end and walks back across the intron."""
+    ctx.count("polya_outside:%s_checked" % where)
+    if pa.external_polya_pos != -1 or pa.external_polyt_pos != -1:
+        ctx.count("polya_outside:%s_with_external_position" % where)
+    if polya_outside(read_exons, pa):
+        return True
+    short = (pa.external_polya_pos != -1 and aligned_exons[-1][1] - aligned_exons[-1][0] + 1 <= 2) or \
+            (pa.external_polyt_pos != -1 and aligned_exons[0][1] - aligned_exons[0][0] + 1 <= 2)
+    ctx.fail("polya_outside_violated", dict(rec_desc, mode="polya_finder", strategy=strategy, read=name,
+                                             short_terminal_block=short),
+             "hypothesis PolyAOutside fails on the real PolyAFinder: read exons %s, external polyA %d, external polyT %d%s"
+             % (read_exons, pa.external_polya_pos, pa.external_polyt_pos,
+                " (terminal aligned block of <= 2 bases: class polya_outside_short_terminal_exon)" if short else ""))
+    return False
+
+
+def synth_record(ref, exons, tail_a=0, tail_t=0, last_bases=None, first_bases=None, reverse=False):
+    import pysam
+    a = pysam.AlignedSegment(pysam.AlignmentHeader.from_dict({"HD": {"VN": "1.6"}, "SQ": [{"SN": "chr1", "LN": len(ref)}]}))
+    a.query_name = "r"
+    a.flag = 16 if reverse else 0
+    a.reference_id = 0
+    a.reference_start = exons[0][0] - 1
+    a.mapping_quality = 60
+    cig, seq = [], ""
+    if tail_t:
+        cig.append((4, tail_t))
+    for i, (x, y) in enumerate(exons):
+        if i:
+            cig.append((3, x - exons[i - 1][1] - 1))
+        cig.append((0, y - x + 1))
+        seq += ref[x - 1:y]
+    if last_bases:
+        seq = seq[:-len(last_bases)] + last_bases
+    if first_bases:
+        seq = first_bases + seq[len(first_bases):]
+    seq = "T" * tail_t + seq
+    if tail_a:
+        cig.append((4, tail_a))
+        seq += "A" * tail_a
+    a.cigartuples = cig
+    a.query_sequence = seq
+    return a
+
+
+POLYA_OUTSIDE_WITNESS = {"exons": [[1000, 1100], [1601, 1601]], "tail_a": 30, "last_bases": "AA"}
+
+
+def oracle_polya_finder(ctx, n):
+    """search for a violation of `PolyAOutside` on the real finder: spliced records whose terminal aligned block is 1..60
+    bases long, with a soft-clipped polyA / polyT tail and A / T at the last aligned bases.  Inside the domain "terminal
+    aligned block >= 3 bases" a violation is reported as a failure; the audit's witness (1-base block) is replayed every
+    run and recorded as the class `polya_outside_short_terminal_exon` (known-finding candidate, not yet listed: a note)."""
+    rng = ctx.rng
+    ref = quiet_genome(rng, 12000)
+    params = make_params("default")
+    listed = any(e.get("property") == ID and e.get("id") == "polya_outside_short_terminal_exon"
+                 for e in vlib.load_known_findings().get("findings", []))
+    # the witness of the audit
+    w = POLYA_OUTSIDE_WITNESS
+    ex = [tuple(e) for e in w["exons"]]
+    try:
+        read_exons, pa = real_polya_info(synth_record(ref, ex, tail_a=w["tail_a"], last_bases=w["last_bases"]), params)
+        if polya_outside(read_exons, pa):
+            ctx.notes.append("audit G2 witness: PolyAOutside now HOLDS for the 1-base terminal exon + soft-clipped tail "
+                             "(read exons %s, external polyA %d)" % (read_exons, pa.external_polya_pos))
+            ctx.count("polya_outside:witness_holds")
+        else:
+            ctx.count("polya_outside:witness_violates(class polya_outside_short_terminal_exon)")
+            if listed:
+                judge_polya_outside(ctx, "finder", "default", "witness", ex, dict(w), read_exons, pa)
+            else:
+                ctx.notes.append("audit G2: hypothesis PolyAOutside fails on the real PolyAFinder for a terminal aligned block "
+                                 "of 1-2 bases followed by a soft-clipped tail (witness: read exons %s, external polyA %d left "
+                                 "of intron start %d); class polya_outside_short_terminal_exon - proposed known finding"
+                                 % (read_exons, pa.external_polya_pos, o_introns(read_exons)[0][0]))
+    except ERRS as e:
+        ctx.notes.append("audit G2 witness could not be replayed: %s" % type(e).__name__)
+    for _ in range(n):
+        k = rng.randint(2, 4)
+        pos = rng.randint(500, 1500)
+        exons = []
+        for j in range(k):
+            ln = rng.randint(60, 300)
+            exons.append([pos, pos + ln - 1])
+            pos += ln + rng.randint(60, 900)
+        side = rng.choice("AT")
+        tl = rng.choice([1, 2, 3, 3, 4, 5, 8, 15, 16, 17, 30, 60])
+        if side == "A":
+            exons[-1][1] = exons[-1][0] + tl - 1
+        else:
+            exons[0][0] = exons[0][1] - tl + 1
+        ex = [tuple(e) for e in exons]
+        nb = rng.choice([0, 1, 2, 2, 3, 8])
+        tail = rng.choice([0, 8, 12, 20, 30, 45])
+        kw = {"exons": [list(e) for e in ex]}
+        if side == "A":
+            kw.update(tail_a=tail, last_bases="A" * min(nb, tl) if nb else None)
+        else:
+            kw.update(tail_t=tail, first_bases="T" * min(nb, tl) if nb else None, reverse=True)
+        try:
+            rec = synth_record(ref, ex, **{k2: v for k2, v in kw.items() if k2 != "exons"})
+            read_exons, pa = real_polya_info(rec, params)
+        except ERRS as e:
+            ctx.count("polya_outside:finder_raises_" + type(e).__name__)
+            continue
+        if tl <= 2:
+            ctx.count("polya_outside:finder_short_terminal_block")
+            if not polya_outside(read_exons, pa):
+                ctx.count("polya_outside:finder_short_terminal_block_violations(class polya_outside_short_terminal_exon)")
+                if listed:
+                    judge_polya_outside(ctx, "finder", "default", "gen", ex, kw, read_exons, pa)
+            continue
+        judge_polya_outside(ctx, "finder", "default", "gen", ex, kw, read_exons, pa)
+
+
+def monitor_polya_outside_bam(ctx, bam_path, strategy):
+    """the hypothesis on every record of the BAM a pipeline run reads (same per-record code as the pipeline)"""
+    import pysam
+    params = make_params(strategy)
+    with pysam.AlignmentFile(bam_path, "rb") as f:
+        for rec in f:
+            if rec.is_unmapped or rec.is_secondary or rec.is_supplementary:
+                continue
+            aligned = [(a + 1, b) for a, b in rec.get_blocks()]
+            try:
+                read_exons, pa = real_polya_info(rec, params)
+            except ERRS as e:
+                ctx.count("polya_outside:pipeline_raises_" + type(e).__name__)
+                continue
+            judge_polya_outside(ctx, "pipeline", strategy, rec.query_name, aligned,
+                                {"cigar": rec.cigarstring, "pos": rec.reference_start + 1}, read_exons, pa)
+
+
+def narrow_gene_lines(rng, gtf_path):
+    """audit G7: the pipeline takes the gene region from the GTF `gene` line, the model from the span of the transcripts'
+    exons.  Rewrites about half of the gene lines to a region NARROWER than the gene's transcripts (a malformed annotation:
+    start moved right / end moved left by up to 60 % of the span)"""
+    lines = open(gtf_path).read().splitlines()
+    n = 0
+    for i, ln in enumerate(lines):
+        f = ln.split("\t")
+        if len(f) > 8 and f[2] == "gene" and rng.random() < 0.5:
+            a, b = int(f[3]), int(f[4])
+            span = b - a
+            if rng.random() < 0.5:
+                a += rng.randint(span // 10, max(span // 10, (6 * span) // 10))
+            else:
+                b -= rng.randint(span // 10, max(span // 10, (6 * span) // 10))
+            f[3], f[4] = str(a), str(b)
+            lines[i] = "\t".join(f)
+            n += 1
+    with open(gtf_path, "w") as fh:
+        fh.write("\n".join(lines) + "\n")
     return n
 
 
@@ -1386,7 +1852,7 @@ def build_pipeline_dataset(rng, n_chroms, clusters_per_chrom, reads_per_iso, del
     return ds, clusters, truth
 
 
-def oracle_pipeline(ctx, strategies, n_chroms, clusters_per_chrom, reads_per_iso):
+def oracle_pipeline(ctx, strategies, n_chroms, clusters_per_chrom, reads_per_iso, narrow_genes=False):
     import pipeline as P
     rng = ctx.rng
     n = 0
@@ -1396,6 +1862,12 @@ def oracle_pipeline(ctx, strategies, n_chroms, clusters_per_chrom, reads_per_iso
         try:
             ds, clusters, truth = build_pipeline_dataset(rng, n_chroms, clusters_per_chrom, reads_per_iso, delta)
             paths = ds.write(os.path.join(d, "in"))
+            if narrow_genes:
+                ctx.count("pipeline:gene_lines_narrowed", narrow_gene_lines(rng, paths["gtf"]))
+            try:
+                monitor_polya_outside_bam(ctx, paths["bam"], strategy)
+            except ERRS as e:
+                ctx.notes.append("PolyAOutside monitor could not read the BAM: %s" % type(e).__name__)
             out = os.path.join(d, "out")
             rc, log = P.run_isoquant(out, P.std_args(paths, prefix="S", threads=2,
                                                      extra=["--matching_strategy", strategy, "--no_model_construction"]))
@@ -1425,7 +1897,8 @@ def oracle_pipeline(ctx, strategies, n_chroms, clusters_per_chrom, reads_per_iso
                 blocks = [tuple(b) for b in tr["blocks"]]
                 for k, detail in check_assignment(iso, delta, blocks, tuple(tr["tail"]) if tr["tail"] else None, res):
                     ctx.fail(k, {"mode": "pipeline", "isoforms": strip(iso), "strategy": strategy, "blocks": tr["blocks"],
-                                 "polya_tail": tr["polya"], "derived_from": tr["tid"], "reported_events": res["events"]},
+                                 "polya_tail": tr["polya"], "derived_from": tr["tid"], "reported_events": res["events"],
+                                 "gene_lines_narrowed": narrow_genes},
                              detail + " | events %s" % res["events"])
         finally:
             shutil.rmtree(d, ignore_errors=True)
@@ -1490,13 +1963,15 @@ def in_domain(isoforms, blocks, polya, delta):
     if min(b[1] - b[0] + 1 for b in blocks) < FAR_EXON:
         return False
     for a, b in o_introns(blocks):
-        if b - a + 1 < 100:
+        if b - a + 1 < WIDE_MIN_INTRON:
             return False
     for t in isoforms:
         ex = t["exons"]
-        if min(e[1] - e[0] + 1 for e in ex) < MIN_ANNOT_EXON:
+        # audit G4-G6: the domain is what the theorems assume - no micro-features (exons >= 20 bp, introns >= 30 bp);
+        # short annotated exons are handled per read (skips_short_annotated_exon in check_assignment)
+        if min(e[1] - e[0] + 1 for e in ex) < WIDE_MIN_EXON:
             return False
-        if any(ex[i + 1][0] - ex[i][1] - 1 < 100 for i in range(len(ex) - 1)):
+        if any(ex[i + 1][0] - ex[i][1] - 1 < WIDE_MIN_INTRON for i in range(len(ex) - 1)):
             return False
     return True
 
@@ -1527,12 +2002,23 @@ def oracle(ctx, disagreements, broken):
                              "delta": kw["params"]["delta"], "blocks": kw["blocks"], "polya": kw["polya"]}, detail)
     replay_known_findings(ctx)
     quick = ctx.tier == "quick"
+    MONITOR.clear()
+    replay_reading_rule_witnesses(ctx)
     n = oracle_inprocess(ctx, 150 if quick else 3000, 3 if quick else 5)
     ctx.extra["oracle_inprocess_reads"] = n
+    # audit G4-G6: annotations with short exons / introns (outside the old generator domain)
+    n = oracle_inprocess_wide(ctx, 120 if quick else 2500, 3 if quick else 4)
+    ctx.extra["oracle_inprocess_wide_reads"] = n
     oracle_comparator(ctx, 1500 if quick else 30000)
+    # audit G2: the hypothesis PolyAOutside on the real PolyAFinder (search + the audit's witness)
+    oracle_polya_finder(ctx, 400 if quick else 8000)
     # 3. the same check on read_assignments.tsv of real pipeline runs, one per matching strategy
     n = oracle_pipeline(ctx, A.PRESETS, 2 if quick else 4, 6 if quick else 14, 5 if quick else 12)
+    # audit G7: one more run on a GTF whose gene lines are narrower than their transcripts (malformed annotation)
+    n += oracle_pipeline(ctx, ["default"], 1 if quick else 2, 5 if quick else 12, 4 if quick else 10, narrow_genes=True)
     ctx.extra["oracle_pipeline_reads"] = n
+    for k, v in MONITOR.items():
+        ctx.count(k, v)
 
 
 def matches_finding(failure, entry):
@@ -1540,12 +2026,43 @@ def matches_finding(failure, entry):
     terminal_exon_misalignment_* artifact event (every reported isoform carries one)"""
     if failure["kind"] != entry.get("kind"):
         return False
+    if entry.get("id") == "polya_outside_short_terminal_exon":
+        # proposed entry (audit G2): PolyAOutside fails only behind a terminal aligned block of 1-2 bases
+        return bool(failure["input"].get("short_terminal_block"))
     if entry.get("id") == "terminal_exon_misalignment_far":
         ev = failure["input"].get("reported_events") or {}
         if not ev:
             return False
         return all("terminal_exon_misalignment_" in (",".join(v) if isinstance(v, list) else str(v)) for v in ev.values())
     return True
+
+
+FULL_LENGTH_RULE_WITNESS = {
+    # audit G3: T = t0000 is followed full-length (both introns... the single intron, ends within 40 bp) but t0001 fits the
+    # read much better (Jaccard 58/61 against 61/101): resolve_by_nucleotide_score drops T.  Covered by the reading rule
+    # "full-length => T reported unless another candidate's Jaccard score exceeds 3/2 of T's"
+    "isoforms": [{"id": "t0000", "gene": "g0", "strand": "+", "exons": [(1000, 1100), (2000, 2100)]},
+                 {"id": "t0001", "gene": "g0", "strand": "+", "exons": [(1043, 1100), (2000, 2057)]}],
+    "blocks": [(1040, 1100), (2000, 2060)]}
+
+
+def replay_reading_rule_witnesses(ctx):
+    """the input on which the literal clause "T is among them whenever the read is full-length" fails by design: it must be
+    classified by the MONITORED score hypothesis (counter), never silently skipped and never flagged"""
+    w = FULL_LENGTH_RULE_WITNESS
+    for strategy in A.PRESETS:
+        before = MONITOR.get("oracle:full_length_dropped_by_score(reading rule)", 0)
+        try:
+            fails, res = oracle_inprocess_case(w["isoforms"], strategy, w["blocks"], [-1, -1, -1, -1])
+        except ERRS:
+            continue
+        dropped = MONITOR.get("oracle:full_length_dropped_by_score(reading rule)", 0) > before
+        ctx.count("oracle:full_length_rule_witness:%s:%s" % (strategy, "T_dropped_by_score" if dropped else
+                                                            ("T_reported" if "t0000" in res["isoforms"] else "other")))
+        for k, detail in fails:
+            ctx.fail(k, {"mode": "inprocess", "isoforms": strip(w["isoforms"]), "strategy": strategy,
+                         "blocks": [list(b) for b in w["blocks"]], "polya": [-1, -1, -1, -1],
+                         "reported_events": res["events"]}, detail)
 
 
 def replay_known_findings(ctx):
@@ -1580,6 +2097,17 @@ def replay(ctx, failure):
         params = make_params(inp.get("strategy", "default"))
         params.delta = c["params"]["delta"]
         return vlib.is_err(CMP.impl_compare(c, params)[0])
+    if inp.get("mode") == "polya_finder":
+        # audit G2 monitor: rebuild the record (quiet reference; only the aligned bases next to the tail matter) and re-run
+        # the real AlignmentInfo + PolyAFinder + PolyAFixer
+        if "exons" not in inp:
+            return False
+        import random
+        ref = quiet_genome(random.Random(1), 12000)
+        kw = {k: inp[k] for k in ("tail_a", "tail_t", "last_bases", "first_bases", "reverse") if inp.get(k) is not None}
+        read_exons, pa = real_polya_info(synth_record(ref, [tuple(e) for e in inp["exons"]], **kw),
+                                         make_params(inp.get("strategy", "default")))
+        return not polya_outside(read_exons, pa)
     if "isoforms" not in inp:
         return False
     isoforms = [{"id": t["id"], "gene": t["gene"], "strand": t["strand"], "exons": [tuple(e) for e in t["exons"]]}
